@@ -31,6 +31,7 @@ def dispatch (line : String) : String :=
   | "c04.run" :: args => C04.cmdRun args
   | "c04.outcomes" :: args => C04.cmdOutcomes args
   | "c03.recv" :: args => C03.cmd args
+  | "c03.parse" :: rev :: hex :: _ => C03.cmdParse rev hex (C01.restAfter line 3)
   | "ping" :: _ => "pong"
   | _ => "bad-op"
 
